@@ -83,6 +83,12 @@ class Build:
 
 
 def _prune(keep):
+    for d in glob.glob(os.path.join(SCRATCH, "lean-*")) + glob.glob(os.path.join(SCRATCH, "w-*")):
+        try:
+            if time.time() - os.path.getmtime(d) > 7200:
+                shutil.rmtree(d, ignore_errors=True)
+        except OSError:
+            pass
     for d in glob.glob(os.path.join(SCRATCH, "b-*")):
         if os.path.basename(d) in keep:
             continue
